@@ -296,8 +296,67 @@ def _msmart_functions():
     return _FUNCS
 
 
+_MODULE_STATE = None
+_SIMPLE = (type(None), bool, int, float, str, bytes, tuple, frozenset)
+
+
+def _module_level_state():
+    """[(module, name, pristine)] for every module-level global of an msmart module that is a mutable container or a
+    plain value (a scheme list that is reordered, a remembered flag, a cache dict ...), and every object with a
+    cache_clear() method (functools caches) reachable from modules and classes."""
+    global _MODULE_STATE
+    if _MODULE_STATE is None:
+        import copy
+        import_msmart()
+        glob, caches = [], []
+        for mname, m in list(sys.modules.items()):
+            if not (mname == "msmart" or mname.startswith("msmart.")) or m is None:
+                continue
+            for k, v in list(vars(m).items()):
+                if k.startswith("__"):
+                    continue
+                if isinstance(v, _CONTAINERS):
+                    glob.append((m, k, v, copy.deepcopy(v)))
+                elif isinstance(v, _SIMPLE):
+                    glob.append((m, k, None, v))
+                if callable(getattr(v, "cache_clear", None)):
+                    caches.append(v)
+        for cls in _msmart_classes():
+            for v in list(vars(cls).values()):
+                for acc in ((v.fget, v.fset, v.fdel) if isinstance(v, property) else (getattr(v, "__func__", v),)):
+                    if callable(getattr(acc, "cache_clear", None)):
+                        caches.append(acc)
+        _MODULE_STATE = (glob, caches)
+    return _MODULE_STATE
+
+
+def _reset_module_state():
+    import copy
+    glob, caches = _module_level_state()
+    for m, k, obj, pristine in glob:
+        cur = vars(m).get(k, None)
+        if obj is not None:
+            # a container: restored in place (other modules may hold a reference to the same object)
+            if cur is not obj:
+                setattr(m, k, obj)
+            if obj != pristine:
+                if isinstance(obj, (list, bytearray)):
+                    obj[:] = copy.deepcopy(pristine)
+                else:
+                    obj.clear()
+                    obj.update(copy.deepcopy(pristine))
+        elif cur is not pristine and isinstance(cur, _SIMPLE) and cur != pristine:
+            setattr(m, k, pristine)
+    for c in caches:
+        try:
+            c.cache_clear()
+        except Exception:
+            pass
+
+
 def _reset_class_state():
     import copy
+    _reset_module_state()
     for f, pristine in _msmart_functions():
         if f.__dict__ != pristine:
             f.__dict__.clear()
